@@ -56,7 +56,8 @@ def run(P, rep, tier):
         if f.lib != 'Encoder' or f.nocfg:
             continue
         rets = [strip(ev['e']) for ev in f.events(('ret',)) if ev.get('e') is not None]
-        if rets and all(wrap_shape(r) and wrap_shape(r)[0] == 'mod' and wrap_shape(r)[2][0] == 'lit' for r in rets):
+        # every return is a reduction modulo a literal N: E % N, or the single conditional subtraction (X > N-1) ? X-N : X
+        if rets and all(wrap_shape(r) and wrap_shape(r)[0] in ('mod', 'norm') and wrap_shape(r)[2][0] == 'lit' for r in rets):
             ns = {wrap_shape(r)[2][1] for r in rets}
             if len(ns) == 1:
                 helpers[f.name] = ns.pop()
@@ -256,6 +257,37 @@ def run(P, rep, tier):
                 continue
             rep.ob('C22.WRAP', '%s/%s[%s]' % (f.name, lf.split('.')[1], pstr(strip(ev['i']))[:40]), ok, f.loc(ev),
                    '%s[%s] (depth %d): %s' % (lf.split('.')[1], pstr(strip(ev['i']))[:60], N, why))
+    # cursors: every member that is used directly as a subscript of a ring is a cursor of that ring; all its stores, wherever they
+    # are, must be wrap idioms over that ring's depth (a cursor stepped by more than one must be reduced, not reset)
+    cursors = {}
+    for f in P.fns:
+        if f.lib != 'Encoder' or f.nocfg or f in C.dead:
+            continue
+        for ev in f.events(('ix',)):
+            lf = last_field(ev['e'])
+            if lf in rings and strip(ev['e'])[0] == 'm':
+                i = strip(ev['i'])
+                if i and i[0] == 'm':
+                    cursors.setdefault(i[1], set()).add(lf)
+        # cursors that only reach the ring through a wrap helper: members read by the helpers' return expressions
+    for hn, N in helpers.items():
+        for h in P.by_name.get(hn, []):
+            if h.nocfg:
+                continue
+            for ev in h.events(('ret', 'decl')):
+                e = ev.get('e')
+                if e is None:
+                    continue
+                for x in subexprs(e):
+                    if x[0] == 'm' and x[1].startswith(REC) and x[1].endswith('_index'):
+                        for r, d in rings.items():
+                            if d == N and x[1].startswith(r):
+                                cursors.setdefault(x[1], set()).add(r)
+    for cur, rs in sorted(cursors.items()):
+        N = rings[sorted(rs)[0]]
+        memo.pop(('field', cur, N), None)
+        ok, why = ok_field(cur, N, 0, ())
+        rep.ob('C22.WRAP', 'cursor:%s' % cur.split('.')[1], ok, 'Source/Lib/Encoder/Codec/EbEncodeContext.h', 'cursor of %s (depth %d): %s' % (sorted(r.split('.')[1] for r in rs), N, why))
     rep.floor('C22.WRAP', 60)
 
     # ---------------- REARM: picture_number += DEPTH on an entry of ring R uses depth(R)
